@@ -27,6 +27,7 @@ type AliasEvent struct {
 
 type aliasSummary struct {
 	returns bool
+	retIdx  map[int]bool // which results carry the derived value
 	events  []*AliasEvent
 	done    bool
 }
@@ -45,10 +46,15 @@ type Alias struct {
 	Marked     int
 	changed    bool
 	Unmodelled map[string]token.Pos
+	// per call value: the result positions that can carry a derived value (from the callees' summaries);
+	// tupleAll: some callee was not summarised per position
+	tupleIdx map[ssa.Value]map[int]bool
+	tupleAll map[ssa.Value]bool
 }
 
 func NewAlias(w *World) *Alias {
-	return &Alias{w: w, sw: w.SSA(), memo: map[aliasKey]*aliasSummary{}, inprog: map[aliasKey]bool{}, Visited: map[*ssa.Function]bool{}, Unmodelled: map[string]token.Pos{}}
+	return &Alias{w: w, sw: w.SSA(), memo: map[aliasKey]*aliasSummary{}, inprog: map[aliasKey]bool{}, Visited: map[*ssa.Function]bool{}, Unmodelled: map[string]token.Pos{},
+		tupleIdx: map[ssa.Value]map[int]bool{}, tupleAll: map[ssa.Value]bool{}}
 }
 
 // pointerBearing: values of this type can alias memory.
@@ -141,7 +147,7 @@ func (a *Alias) analyze(fn *ssa.Function, idx int, seeds []ssa.Value) *aliasSumm
 	}
 	a.inprog[key] = true
 	a.Visited[fn] = true
-	before := fmt.Sprintf("%v/%d", s.returns, len(s.events))
+	before := fmt.Sprintf("%v/%d/%d", s.returns, len(s.events), len(s.retIdx))
 
 	tainted := map[ssa.Value]bool{}
 	carrier := map[ssa.Value]bool{} // allocations (or other roots) that hold a derived value
@@ -249,6 +255,10 @@ func (a *Alias) analyze(fn *ssa.Function, idx int, seeds []ssa.Value) *aliasSumm
 					}
 				case *ssa.Extract:
 					if isT(x.Tuple) {
+						// a multi-result call: only the result positions its callees can return the value in
+						if idxs, ok := a.tupleIdx[x.Tuple]; ok && !a.tupleAll[x.Tuple] && !idxs[x.Index] {
+							break
+						}
 						changed = mark(x) || changed
 					}
 				case *ssa.Phi:
@@ -348,10 +358,17 @@ func (a *Alias) analyze(fn *ssa.Function, idx int, seeds []ssa.Value) *aliasSumm
 						addEv(&AliasEvent{Kind: "send", Fn: fn, Pos: x.Pos(), What: "derived value sent on a channel", Instr: x})
 					}
 				case *ssa.Return:
-					for _, rv := range x.Results {
+					for ri, rv := range x.Results {
 						if isT(rv) {
 							if !s.returns {
 								s.returns = true
+								changed = true
+							}
+							if s.retIdx == nil {
+								s.retIdx = map[int]bool{}
+							}
+							if !s.retIdx[ri] {
+								s.retIdx[ri] = true
 								changed = true
 							}
 						}
@@ -379,7 +396,7 @@ func (a *Alias) analyze(fn *ssa.Function, idx int, seeds []ssa.Value) *aliasSumm
 	}
 	delete(a.inprog, key)
 	s.done = true
-	if before != fmt.Sprintf("%v/%d", s.returns, len(s.events)) {
+	if before != fmt.Sprintf("%v/%d/%d", s.returns, len(s.events), len(s.retIdx)) {
 		a.changed = true
 	}
 	return s
@@ -552,6 +569,7 @@ func (a *Alias) callFlow(fn *ssa.Function, site ssa.CallInstruction, tainted map
 			// second matters only when the element type can hold a pointer
 			if len(c.Args) >= 1 && isT(c.Args[0]) && res != nil {
 				changed = mark(res) || changed
+				a.tupleAll[res] = true
 			}
 			// appending to a slice derived from the source writes into the source's backing array whenever it
 			// has spare capacity (a sub-slice, a spread variadic argument)
@@ -564,6 +582,7 @@ func (a *Alias) callFlow(fn *ssa.Function, site ssa.CallInstruction, tainted map
 			}
 			if len(c.Args) >= 2 && isT(c.Args[1]) && res != nil && pointerBearingElem(c.Args[1].Type()) {
 				changed = mark(res) || changed
+				a.tupleAll[res] = true
 			}
 		case "copy":
 			// copy(dst, src): writes through dst; copies elements
@@ -627,6 +646,15 @@ func (a *Alias) callFlow(fn *ssa.Function, site ssa.CallInstruction, tainted map
 				}
 				if sub.returns && res != nil {
 					changed = mark(res) || changed
+					if a.tupleIdx[res] == nil {
+						a.tupleIdx[res] = map[int]bool{}
+					}
+					for ri := range sub.retIdx {
+						if !a.tupleIdx[res][ri] {
+							a.tupleIdx[res][ri] = true
+							changed = true
+						}
+					}
 				}
 			}
 			continue
@@ -656,6 +684,7 @@ func (a *Alias) callFlow(fn *ssa.Function, site ssa.CallInstruction, tainted map
 			case "ret":
 				if res != nil {
 					changed = mark(res) || changed
+					a.tupleAll[res] = true
 				}
 			case "mut", "mutret":
 				if tainted[v] {
@@ -663,6 +692,7 @@ func (a *Alias) callFlow(fn *ssa.Function, site ssa.CallInstruction, tainted map
 				}
 				if flow == "mutret" && res != nil {
 					changed = mark(res) || changed
+					a.tupleAll[res] = true
 				}
 			case "retain":
 				addEv(&AliasEvent{Kind: "retain", Fn: fn, Pos: site.Pos(), What: name + " keeps the derived value", Instr: site})
